@@ -700,6 +700,17 @@ def call_module(it, fv, args, kwargs):
                                 return g(z3.If(z3.And(i_ >= 0, i_ < lz), m_.arg(ri), kz / lz))
             return g(kz / lz)
         return npm.new_arr(ctx, (scalar_arith('*', a0.n, L),), rel, a0.dtype, 'repeat')
+    if name == 'outer' and len(args) == 2 and isinstance(a0, SArr) and a0.ndim == 1:
+        # np.outer(a, b)[i, j] = a[i] * b[j]; a scalar b is a length-1 vector
+        b = args[1]
+        ga = npm.fz(a0)
+        if isinstance(b, SArr) and b.ndim == 1:
+            gb, nb = npm.fz(b), b.n
+        elif _isnum(b):
+            gb, nb = (lambda j: b), 1
+        else:
+            raise Unsupported('np.outer operand')
+        return npm.new_arr(ctx, (a0.n, nb), lambda i, j: scalar_arith('*', ga(i), gb(j), fp), 'real', 'outer')
     if name == 'ndim' and len(args) == 1:
         if isinstance(a0, SArr):
             return a0.ndim
